@@ -448,6 +448,25 @@ impl C20 {
                 if let Some(f) = availability(&cache, &[], &[], "after a dependencies request was abandoned while suspended in the provider") {
                     return Some(f);
                 }
+                // every waiting caller gets to run before any of them completes: exactly one of
+                // them may turn to the provider
+                if with_listener {
+                    let _ = futures::future::poll_fn(|cx| Poll::Ready(b.as_mut().poll(cx).is_ready())).await;
+                    for w in more.iter_mut() {
+                        let _ = futures::future::poll_fn(|cx| Poll::Ready(w.as_mut().poll(cx).is_ready())).await;
+                    }
+                    let outstanding = sched.outstanding().iter().filter(|(k, key)| *k == crate::sched::ReqKind::Dependencies && *key == sid.0).count();
+                    if outstanding > 1 {
+                        return Some(bad(
+                            "duplicate-provider-request",
+                            format!(
+                                "after the caller that made the request was dropped, {outstanding} requests for the dependencies of {} are outstanding at the same time ({} callers were waiting)",
+                                u.display_solvable(s),
+                                1 + extra_waiters
+                            ),
+                        ));
+                    }
+                }
                 let got = match b.await {
                     Ok(d) => d.clone(),
                     Err(_) => return Some(bad("unexpected-cancel", "dependencies after an abandoned request".into())),
